@@ -76,20 +76,27 @@ class C12(Check):
             out += [("pre3", i, j, l, k) for i in range(5) for j in range(5) for l in range(5)]
         return out
 
-    def check_scaffold(self, spec, ctx, two=False):
-        scffld = build(spec)
-        scaffolds = [scffld]
-        if two:
-            scaffolds = [build([ALPHA[0], ALPHA[4], ALPHA[1]], name="other"), scffld]
-        ia = IndexedAssembly("t", scaffolds=scaffolds)
-        ln = scffld.length
-        has_gap = any(k == "G" for k, _, _ in spec)
-        for a in range(1, ln + 3):
-            for b in range(a, ln + 3):
-                self.check_query(spec, scffld, ia, a, b, ctx, two, has_gap)
+    def check_scaffold(self, spec, ctx, two=False, orders=("asc", "desc")):
+        """
+        every query on ONE IndexedAssembly object per order (ascending and descending), so a lookup
+        that depends on earlier lookups on the same object shows up as well
+        """
+        for order in orders:
+            scffld = build(spec)
+            scaffolds = [scffld]
+            if two:
+                scaffolds = [build([ALPHA[0], ALPHA[4], ALPHA[1]], name="other"), scffld]
+            ia = IndexedAssembly("t", scaffolds=scaffolds)
+            ln = scffld.length
+            has_gap = any(k == "G" for k, _, _ in spec)
+            queries = [(a, b) for a in range(1, ln + 3) for b in range(a, ln + 3)]
+            if order == "desc":
+                queries.reverse()
+            for a, b in queries:
+                self.check_query(spec, scffld, ia, a, b, ctx, two, has_gap, order)
 
-    def check_query(self, spec, scffld, ia, a, b, ctx, two, has_gap):
-        case = [[list(r) for r in spec], a, b, two]
+    def check_query(self, spec, scffld, ia, a, b, ctx, two, has_gap, order="asc"):
+        case = [[list(r) for r in spec], a, b, two, order]
         ctx.cur = case
         ctx.evaluations += 1
         want = brute(scffld, a, b)
@@ -139,14 +146,20 @@ class C12(Check):
         ctx.sample({"rows": pre + [ALPHA[3]] * (k - len(pre)), "queries": "all 1<=a<=b<=L+2"})
 
     def replay(self, case, ctx):
-        spec, a, b, two = case
+        # the whole query sequence of that scaffold is replayed in the recorded order on one object
+        # (a lookup may depend on earlier lookups); only the recorded query is reported
+        spec, a, b, two = case[:4]
+        order = case[4] if len(case) > 4 else "asc"
         spec = [tuple(r) for r in spec]
-        scffld = build(spec)
-        scaffolds = [scffld]
-        if two:
-            scaffolds = [build([ALPHA[0], ALPHA[4], ALPHA[1]], name="other"), scffld]
-        ia = IndexedAssembly("t", scaffolds=scaffolds)
-        self.check_query(spec, scffld, ia, a, b, ctx, two, any(k == "G" for k, _, _ in spec))
+        sub = type(ctx)(ctx.tier, ctx.seed)
+        self.check_scaffold(spec, sub, two, orders=(order,))
+        for klass, lst in sub.violations.items():
+            for v in lst:
+                if v["case"][1:3] == [a, b] or sub.violation_counts[klass] > len(lst):
+                    ctx.violation(klass, v["case"], v["detail"])
+        if not ctx.violation_count and sub.violation_count:
+            k = next(iter(sub.violations))
+            ctx.violation(k, sub.violations[k][0]["case"], sub.violations[k][0]["detail"])
 
 
 CHECK = C12()
